@@ -179,7 +179,8 @@ var (
 	emptyTitle      = regexp.MustCompile(`[ \n>](?:""|''|\(\))`)
 	entityInAuto    = regexp.MustCompile(`<[a-zA-Z][a-zA-Z0-9+.-]{1,31}:[^ <>\n]*&[a-zA-Z0-9#]+;[^ <>\n]*>`)
 	tagEndOnNewLine = regexp.MustCompile(`(?m)^[ >]*/>|^(?: {0,3}> ?)* {4,}>`)
-	ltInPointyDest  = regexp.MustCompile(`\]\([ \n]*<[^>\n]*<`)
+	oddEntityInDest = regexp.MustCompile(`\]\([ \n]*<?[^ \n)]*&(?:#|Tab;|NewLine;|nbsp;)|\]\([ \n]*<[^>\n]*&(?:#|Tab;|NewLine;|nbsp;)`)
+	ltInPointyDest  = regexp.MustCompile(`\]\([ \n]*<[^\n]*<`)
 	entityOnFence   = regexp.MustCompile("(?m)^.*(?:```|~~~).*&.*$")
 	quoteThenDelim  = regexp.MustCompile(`(?m)^[ >]*>[*_]`)
 	lowerDecl       = regexp.MustCompile(`<![a-z]`)
@@ -202,6 +203,12 @@ func hideCodeBrackets(doc string) string {
 // altHasEscape: an image description containing an entity, a backslash, raw
 // HTML or a line break.
 func altHasEscape(doc string) bool {
+	for _, para := range strings.Split(doc, "\n\n") {
+		// backticks can hide the real end of the description from a textual scan
+		if i := strings.Index(para, "!["); i >= 0 && strings.Contains(para, "`") && strings.ContainsAny(para[i:], "&\\<\n") {
+			return true
+		}
+	}
 	return altHasEscape1(doc) || altHasEscape1(hideCodeBrackets(doc))
 }
 
@@ -231,15 +238,34 @@ func RefReliable(doc string) string {
 	// goldmark mis-processes emphasis delimiters around nested brackets
 	// ("[_[a]_](b)", "*[![a](b)](c)*"); pkg/md follows the spec's algorithm.
 	for _, para := range strings.Split(doc, "\n\n") {
-		if strings.Count(para, "[") >= 2 && strings.Contains(para, "](") && strings.ContainsAny(para, "*_") {
+		if !strings.Contains(para, "](") || !strings.ContainsAny(para, "*_") || strings.Count(para, "[") < 2 {
+			continue
+		}
+		if strings.ContainsAny(para, "`\\<") {
+			// code spans, escapes and raw HTML can hide brackets from a
+			// textual scan: be conservative
 			return "nested-brackets-with-emphasis"
+		}
+		depth := 0
+		for i := 0; i < len(para); i++ {
+			switch para[i] {
+			case '[':
+				depth++
+				if depth >= 2 {
+					return "nested-brackets-with-emphasis"
+				}
+			case ']':
+				if depth > 0 {
+					depth--
+				}
+			}
 		}
 	}
 	lines := strings.Split(doc, "\n")
 	for i, l := range lines {
 		// goldmark keeps the backslash of an escape at the start of the line
 		// after a hard line break ("\\  \n\\`").
-		if i > 0 && strings.HasPrefix(l[len(linePrefix.FindString(l)):], "\\") &&
+		if i > 0 && strings.Contains(l, "\\") &&
 			(strings.HasSuffix(lines[i-1], "  ") || strings.HasSuffix(lines[i-1], "\\")) {
 			return "escape-after-hard-break"
 		}
@@ -289,6 +315,8 @@ func RefReliable(doc string) string {
 		}
 	}
 	switch {
+	case strings.Contains(doc, "\\&"):
+		return "escaped-ampersand" // goldmark resolves "\\&amp;" as an entity after unescaping
 	case nonASCIIInURL.MatchString(doc):
 		return "non-ascii-in-url" // pkg/md deliberately percent-encodes only a fixed ASCII set
 	case spaceOnlyLine.MatchString(doc) && codeBlockShape.MatchString(doc):
@@ -298,6 +326,8 @@ func RefReliable(doc string) string {
 		return "space-only-line-with-code-block"
 	case tagEndOnNewLine.MatchString(doc):
 		return "tag-end-on-next-line" // goldmark rejects "<b\n/>", a valid open tag
+	case oddEntityInDest.MatchString(doc):
+		return "non-ascii-in-url" // a reference to a control / non-ASCII character in a destination: same serialisation difference
 	case ltInPointyDest.MatchString(doc):
 		return "lt-in-pointy-destination" // goldmark accepts "[](<<>)"; the spec forbids an unescaped '<'
 	case entityOnFence.MatchString(doc):
